@@ -189,3 +189,133 @@ class Top(_TopBottom):
 class Bottom(_TopBottom):
   target = f'{SEL}:Bottom.select'
   cls = selectors.Bottom
+
+
+# ---------------------------------------------------------------------------
+# "Seeded operators are deterministic functions of their seed and inputs": the
+# random source of every seeded operator is chosen in the hook that runs after
+# construction AND after every symbolic update (`_on_bound`; `_setup` for the
+# DNA generator) as
+#     seed is None  ->  the process-global `random` module
+#     any integer   ->  a fresh random.Random(seed)      (0 is a seed like any other)
+# for every integer seed.
+
+import importlib as _importlib   # noqa: E402  pylint: disable=wrong-import-position
+import random as _random          # noqa: E402  pylint: disable=wrong-import-position
+
+SEEDED = (
+    ('pyglove.ext.evolution.selectors', 'Random', '_on_bound'),
+    ('pyglove.ext.evolution.selectors', 'Sample', '_on_bound'),
+    ('pyglove.ext.evolution.mutators', 'Uniform', '_on_bound'),
+    ('pyglove.ext.evolution.mutators', 'Swap', '_on_bound'),
+    ('pyglove.ext.evolution.recombinators', 'Sample', '_on_bound'),
+    ('pyglove.ext.evolution.recombinators', 'Uniform', '_on_bound'),
+    ('pyglove.ext.evolution.recombinators', 'KPoint', '_on_bound'),
+    ('pyglove.ext.evolution.recombinators', 'Permutation', '_on_bound'),
+    ('pyglove.ext.evolution.where', 'Any', '_on_bound'),
+    ('pyglove.ext.evolution.base', 'Choice', '_on_bound'),
+    ('pyglove.ext.scalars.randoms', 'RandomScalar', '_on_bound'),
+    ('pyglove.core.geno.random', 'Random', '_setup'),
+)
+
+
+class _SeededRng(Contract):
+  prop = 'C14'
+  variants = ('seed=None', 'seed=int')
+  owner = None
+
+  def inputs(self, b):
+    self._seed = None if self.variant == 'seed=None' else b.int('seed')
+    fields = {'seed': self._seed, 'ops': [], 'where': SAny('where'), '_sym_attributes': SAny('attrs')}
+    s = SObj(self.owner, fields, name='self')
+    s.ghost['raw_setattr'] = True
+    return dict(self=s), {}
+
+  def setup_policy(self, policy):
+    me = self
+
+    def new_rng(interp, args, kwargs, frame):
+      r = SObj(_random.Random, {}, name='rng')
+      interp.path.event('rng', 'random.Random', ([interp.resolve(a) for a in args], dict(kwargs), r))
+      return r
+    policy.handlers[('new', _random.Random)] = new_rng
+    # whatever else the hook sets up does not concern the random source
+    for cls in self.owner.__mro__[1:]:
+      for hook in ('_on_bound', '_setup', '_on_init'):
+        if hook in cls.__dict__:
+          policy.contracts[f'{cls.__module__}:{cls.__qualname__}.{hook}'] = lambda interp, frame, args, kwargs: None
+
+  def trace_random_source_is_the_seeded_generator_or_the_global_one(self, events, outcome, interp, env):
+    if outcome[0] != 'return':
+      return False
+    s = interp.resolve(env['self'])
+    src = interp.resolve(s.fields.get('_random'))
+    made = [e for e in events if e.kind == 'rng']
+    if self._seed is None:
+      return src is _random and not made
+    if len(made) != 1 or src is not made[0].data[2]:
+      return False
+    args, kwargs, _ = made[0].data
+    given = args[0] if args else kwargs.get('x')
+    return given is self._seed
+
+  def small_models(self):
+    from pyvc.contracts import Model
+    for sd in (0, 1, 7):
+      yield Model(dict(seed=sd), {})
+
+  def replay(self, obligation, m):
+    sd = m.get('seed') if self.variant == 'seed=int' else None
+    if self.variant == 'seed=int' and not isinstance(sd, int):
+      sd = 0
+    mk = _SEEDED_NATIVE.get((self.owner.__module__, self.owner.__name__))
+    if mk is None:
+      return dict(outcome='not-concretizable', detail='no native constructor registered')
+    bad = []
+    a, b2 = mk(sd), mk(sd)
+    ra, rb = getattr(a, '_random', None), getattr(b2, '_random', None)
+    if sd is None:
+      if ra is not _random:
+        bad.append(f'seed=None: the random source is {ra!r}, not the global random module')
+    else:
+      if ra is _random or ra is rb or not isinstance(ra, _random.Random):
+        bad.append(f'seed={sd}: the random source is {"the global random module" if ra is _random else repr(ra)}')
+      elif [ra.random() for _ in range(3)] != [_random.Random(sd).random() for _ in range(3)]:
+        bad.append(f'seed={sd}: the random source does not produce the stream of random.Random({sd})')
+    return dict(outcome='reproduced' if bad else 'not-reproduced', detail='; '.join(bad) or 'random source as specified')
+
+
+def _native_ctor(modname, clsname):
+  mod = _importlib.import_module(modname)
+  cls = getattr(mod, clsname)
+  S = pg.dna_spec(pg.Dict(x=pg.oneof([1, 2, 3])))
+
+  def mk(seed):
+    if (modname, clsname) == ('pyglove.core.geno.random', 'Random'):
+      o = cls(seed=seed); o.setup(S); return o
+    if clsname == 'Choice':
+      return cls([(selectors.First(1), 0.5)], seed=seed)
+    if clsname in ('KPoint',):
+      return cls(1, seed=seed)
+    if (modname.endswith('selectors') and clsname in ('Random', 'Sample')):
+      return cls(1, seed=seed) if clsname == 'Random' else cls(1, lambda inputs: [1.0] * len(inputs), seed=seed)
+    if clsname == 'RandomScalar':
+      return None
+    return cls(seed=seed)
+  return mk
+
+
+_SEEDED_NATIVE = {}
+for _m, _c, _h in SEEDED:
+  try:
+    _cls = getattr(_importlib.import_module(_m), _c)
+  except (ImportError, AttributeError):
+    continue
+  _SEEDED_NATIVE[(_m, _c)] = _native_ctor(_m, _c)
+  _tgt_cls = next((k for k in _cls.__mro__ if _h in k.__dict__), None)
+  if _tgt_cls is None:
+    continue
+  _name = f'SeededRng_{_m.split(".")[-1]}_{_c}'
+  globals()[_name] = register(type(_name, (_SeededRng,), dict(
+      target=f'{_tgt_cls.__module__}:{_tgt_cls.__qualname__}.{_h}', owner=_cls,
+      name=f'{_m.split(".")[-1]}.{_c}.{_h}/random-source', __module__=__name__)))
